@@ -104,6 +104,12 @@ func c13Gen(r R) c13Completion {
 	if r.Chance(100) {
 		c.Finish = "length"
 	}
+	if r.Chance(200) {
+		// the finish reason is the backend's to choose and does not have to match the content
+		// (Ollama and older vLLM end a tool-calling turn with "stop"); "content_filter" has no
+		// documented Anthropic counterpart, so only streamed == buffered is asserted for it
+		c.Finish = pickS(r, []string{"stop", "tool_calls", "length", "content_filter"})
+	}
 	c.Prompt, c.Completion = 1+r.Pick(5000), r.Pick(3000)
 	return c
 }
@@ -544,7 +550,7 @@ func (propC13) Check(r *Run) []Violation {
 	if !reflect.DeepEqual(want, got) {
 		add("C13/stream-content-differs", "expected blocks %s, stream delivered %s", c13Show(want), c13Show(got))
 	}
-	if parsed.stopReason != c13Stop(comp.Finish) {
+	if comp.Finish != "content_filter" && parsed.stopReason != c13Stop(comp.Finish) {
 		add("C13/stop-reason-wrong", "finish_reason %q => want %q, got %q", comp.Finish, c13Stop(comp.Finish), parsed.stopReason)
 	}
 	if parsed.in != comp.Prompt || parsed.out != comp.Completion {
